@@ -177,16 +177,18 @@ def moveToFront (s : Lru) (e : Entry) : Lru := { s with list := e :: removeKey e
 
 def outOr (panicked : Bool) (o : Out) : Out := if panicked then .panic else o
 
+/-- `if element := lru.table[key]; element != nil { updateInPlace… } else { addNew… }` -/
+def upsert (c : Cfg) (kd : Kind) (s : Lru) (k v : Nat) (sz : Int) : Lru × List Nat × Bool :=
+  match find? k s.list with
+  | some old => updateInPlace c kd s old v sz
+  | none => addNew c kd s k v sz
+
 def step (c : Cfg) (kd : Kind) (s : Lru) : Op → Lru × Out
   | .set k v sz =>
-    let r := match find? k s.list with
-      | some old => updateInPlace c kd s old v sz
-      | none => addNew c kd s k v sz
+    let r := upsert c kd s k v sz
     (r.1, outOr r.2.2 .unit)
   | .setGetRemoved k v sz =>
-    let r := match find? k s.list with
-      | some old => updateInPlace c kd s old v sz
-      | none => addNew c kd s k v sz
+    let r := upsert c kd s k v sz
     (r.1, outOr r.2.2 (.removed r.2.1))
   | .setIfAbsent k v sz =>
     match find? k s.list with
@@ -239,5 +241,25 @@ def wideStep (c : Cfg) (kd : Kind) (idx : Nat → Nat) (w : Wide) (op : Op) : Op
     | some s =>
       let r := step c kd s op
       some (⟨w.shards.set (idx k) r.1⟩, r.2)
+
+/-- run a script on a wide cache; `none` as soon as one step is `none` -/
+def wideRun (c : Cfg) (kd : Kind) (idx : Nat → Nat) : Wide → List Op → Option (Wide × List Out)
+  | w, [] => some (w, [])
+  | w, op :: ops =>
+    match wideStep c kd idx w op with
+    | none => none
+    | some r =>
+      match wideRun c kd idx r.1 ops with
+      | none => none
+      | some rs => some (rs.1, r.2 :: rs.2)
+
+/-- is this operation routed to shard `i`? -/
+def routed (idx : Nat → Nat) (i : Nat) (op : Op) : Bool :=
+  match op.key? with
+  | some k => decide (idx k = i)
+  | none => false
+
+/-- the operations of a script that shard `i` sees -/
+def shardOps (idx : Nat → Nat) (i : Nat) (ops : List Op) : List Op := ops.filter (routed idx i)
 
 end Nv.C04
